@@ -446,3 +446,25 @@ package app
 //@   requires procWF(p) && unlocked(p) && bufWF(p.logBuffer)
 //@   ensures nonfatal: !isFatal ==> sends() == old(sends()) && p.procState.Status == old(p.procState.Status) && p.procState.Health == old(p.procState.Health)
 //@   ensures fatal-daemon: isFatal && p.procConf.IsDaemon ==> sends() == old(sends()) + 1
+
+// ---------- C12: ordered shutdown ----------
+//@ define recorded(p *ProjectRunner, rev map[string]map[string]*Process, k string, q string) bool =
+//@    p.runningProcesses[k].procConf.ReplicaName in rev &&
+//@    p.runningProcesses[q].procConf.ReplicaName in rev[p.runningProcesses[k].procConf.ReplicaName] &&
+//@    rev[p.runningProcesses[k].procConf.ReplicaName][p.runningProcesses[q].procConf.ReplicaName] == p.runningProcesses[q]
+
+// every running dependent q of every running dependency k is recorded under k
+//@ func (p *ProjectRunner) runningProcessesReverseDependencies
+//@   flag trusted bounded
+//@   requires runnerWF(p)
+//@   ensures complete: forall q string, k string :: q in p.runningProcesses && k in p.runningProcesses[q].procConf.DependsOn && k in p.runningProcesses ==> recorded(p, result, k, q)
+//@   ensures fresh(result) && result != nil
+//@ define recordedFor(p *ProjectRunner, rev map[string]map[string]*Process, k string, proc *Process) bool =
+//@    p.runningProcesses[k].procConf.ReplicaName in rev &&
+//@    proc.procConf.ReplicaName in rev[p.runningProcesses[k].procConf.ReplicaName] &&
+//@    rev[p.runningProcesses[k].procConf.ReplicaName][proc.procConf.ReplicaName] == proc
+
+// the waiter spawned per dependent returns only after that dependent is done
+//@ func (p *ProjectRunner) shutDownInOrder$1$1
+//@   requires !held(pr.Mutex) && !held(pr.confMtx)
+//@   ensures pr.done
